@@ -21,7 +21,7 @@ vars == <<tid, l, mach, prev, sb, cnt, esw>>
 Clauses == {"C01_Pos", "C01_Mode", "C01_Carries", "C02_Safe", "C02_Raises", "C02_OnlyDoc",
             "C03_Words", "C03_Reject", "C03_NaN", "C05_NoEmit", "C05_NoEffect",
             "C06_Off", "C07_Tool", "C07_Coolant", "C07_Modal", "C07_Temps", "C07_Params",
-            "C08_Lex", "C20_Count", "C20_Geometry", "C20_Params", "C20_Extrusion", "C20_ExtrusionF14"}
+            "C08_Lex", "CV_Convert", "CV_Pure", "C20_Count", "C20_Geometry", "C20_Params", "C20_Extrusion", "C20_ExtrusionF14"}
 
 Holds(c, e, p, m, m2, M, s) ==
   CASE c = "C01_Pos"      -> C01_Pos(e, p, m, m2, M)
@@ -42,6 +42,8 @@ Holds(c, e, p, m, m2, M, s) ==
     [] c = "C07_Temps"    -> C07_Temps(e, p, m, m2, M)
     [] c = "C07_Params"   -> C07_Params(e, p, m, m2, M)
     [] c = "C08_Lex"      -> \A i \in DOMAIN e.lines : \A j \in DOMAIN e.lines[i].ws : e.lines[i].ws[j].ok
+    [] c = "CV_Convert"   -> CV_Convert(e, p, m, m2, M)
+    [] c = "CV_Pure"      -> CV_Pure(e, p, m, m2, M)
     [] c = "C20_Count"    -> C20_Count(e, p, m, m2, M)
     [] c = "C20_Geometry" -> C20_Geometry(e, p, m, m2, M)
     [] c = "C20_Params"   -> C20_Params(e, p, m, m2, M)
@@ -65,6 +67,8 @@ Ante(c, e, p, m, m2, M, s) ==
     [] c = "C07_Coolant"  -> e.rep.coolact
     [] c = "C07_Temps"    -> m2.bed.set \/ m2.hotend.set \/ m2.chamber.set
     [] c = "C07_Params"   -> \E pl \in ParamLetters : m2.params[pl].set
+    [] c = "CV_Convert"   -> e.call \in CV_Calls /\ e.out = "ok"
+    [] c = "CV_Pure"      -> e.call \in CV_Calls
     [] c = "C20_Count"    -> C20_Ante(e, p, m, m2, M)
     [] c = "C20_Geometry" -> C20_Ante(e, p, m, m2, M)
     [] c = "C20_Params"   -> C20_Ante(e, p, m, m2, M)
